@@ -222,16 +222,20 @@ def errWord (s : S) : Err → String
 def fileBytes (f : CFile) (lo hi : Nat) : List UInt8 :=
   (List.range (hi - lo)).map (fun i => UInt8.ofNat (f.at (lo + i)))
 
-/-- accepts every Codec except Zstandard (0x03 << 56); the decompressed data are the bytes
-of CPrimary themselves; MakeDecompressor fails when CPrimary cannot be read or its first byte
-is 5 mod 8; the stream ends in an error when its last byte is 1 mod 4 -/
+/-- accepts every Codec except Zstandard (0x03 << 56).  `MakeDecompressor` reads all of
+CPrimary (and fails when it cannot); its first byte `h` is a header: the decompressed data are
+the next `h % 32` bytes (as far as CPrimary reaches), `h / 32 = 7` makes MakeDecompressor fail,
+`h / 32 = 6` makes the stream end in an error instead of `io.EOF`.  An empty CPrimary decodes
+to nothing. -/
 def toyCodec : Codec where
   accepts c := c != 3 * 2 ^ 56
   make f c :=
     if c.cpLo ≤ c.cpHi ∧ c.cpHi ≤ f.size then
-      let n := c.cpHi - c.cpLo
-      if n ≠ 0 ∧ f.at c.cpLo % 8 = 5 then none
-      else some (fileBytes f c.cpLo c.cpHi, decide (n ≠ 0 ∧ f.at (c.cpHi - 1) % 4 = 1))
+      if c.cpLo = c.cpHi then some ([], false)
+      else
+        let h := f.at c.cpLo
+        if h / 32 = 7 then none
+        else some (fileBytes f (c.cpLo + 1) (min (c.cpLo + 1 + h % 32) c.cpHi), h / 32 == 6)
     else none
 
 end WuffsVerif.Rac.ByteReader
